@@ -338,7 +338,7 @@ def load_config(config_dir, settings_file='settings.yaml'):
     return config
 
 
-def load_supplemental_sources(config, config_dir):
+def load_supplemental_sources(config, config_dir, problems=None):
     """
     Load supplemental data sources as queryable row dictionaries.
 
@@ -349,6 +349,8 @@ def load_supplemental_sources(config, config_dir):
     Args:
         config: Config dict from load_config()
         config_dir: Path to config directory
+        problems: Optional list; a (source name, message) pair is appended for every
+            supplemental source whose file is missing or cannot be read
 
     Returns:
         Dict mapping source names to list of row dicts.
@@ -374,6 +376,8 @@ def load_supplemental_sources(config, config_dir):
         if not os.path.exists(filepath):
             filepath = os.path.join(os.path.dirname(config_dir), source['file'])
         if not os.path.exists(filepath):
+            if problems is not None:
+                problems.append((source.get('name', source_name), f"File not found - {source['file']}"))
             continue
 
         format_spec = source.get('_format_spec')
@@ -447,8 +451,10 @@ def load_supplemental_sources(config, config_dir):
                     if row:
                         rows.append(row)
 
-        except Exception:
-            # Skip sources that can't be loaded
+        except Exception as e:
+            # Skip sources that can't be loaded (the caller reports them)
+            if problems is not None:
+                problems.append((source.get('name', source_name), f"Error reading - {e}"))
             continue
 
         if rows:
